@@ -13,6 +13,7 @@ evaluated on the real providers through Retort and compared with the executable 
     rejected with a LoadError, exactly as the reference says; where the reference is UNSPEC nothing is compared except
     that no other exception class may escape.
 """
+import collections
 import enum
 import itertools
 import linecache
@@ -271,6 +272,9 @@ def flag_names_candidates(model, fn, foreign):
     first = current[0] if current else "ALPHA_ONE"
     out += [
         ("mapping", {}), ("mapping", {first: 1}), ("mapping", {first: first}), ("mapping", {"UNKNOWN": 1}), ("mapping", {1: first}),
+        # mappings that are not exactly dict
+        ("mapping", collections.OrderedDict({first: 1})), ("mapping", types.MappingProxyType({first: 1})),
+        ("mapping", collections.ChainMap({first: 1})), ("mapping", collections.defaultdict(int, {first: 1})),
         ("unhashable_item", [[1]]), ("unhashable_item", [[first]]), ("unhashable_item", [first, [first]]),
         ("unhashable_item", [{}]), ("unhashable_item", [first, {first: 1}]), ("unhashable_item", [[first], [first]]),
         ("non_str_item", [1]), ("non_str_item", [None]), ("non_str_item", [True]), ("non_str_item", [1.0]),
